@@ -15,4 +15,4 @@ def generate(repo):
              lean_name="unpack_language_or_region"),
         Func("_pack_language_or_region", cls="ARSCResTableConfig", types={"char_in": T_STR}, ret=T_LIST,
              lean_name="pack_language_or_region"),
-    ])
+    ], attr="pygen")
